@@ -47,7 +47,7 @@ def seeded():
         return "(no run recorded)"
     rows, vc, bounded_only, bad = [], 0, 0, []
     for line in open(p):
-        m = re.match(r"(C\d+-\d+) exit=(\d+) violations_lines=(\d+) (.*)", line.strip())
+        m = re.match(r"(C\d+-\d+) exit=(\d+) violations_lines=(\d+) ?(.*)", line.strip())
         if not m:
             continue
         sid, rc, nv, first = m.group(1), int(m.group(2)), int(m.group(3)), m.group(4)
@@ -59,8 +59,8 @@ def seeded():
             bad.append(sid)
         vc += by_vc
         bounded_only += (not by_vc)
-        rows.append("| %s | %s | %s | `%s` |" % (sid, "VIOLATION" if rc == 1 and nv else "exit=%d" % rc,
-                                                "VC" if by_vc else "bounded", what))
+        rows.append("| %s | %s | %s | `%s` |" % (sid, "VIOLATION" if rc == 1 and nv else "not reported (exit=%d)" % rc,
+                                                ("VC" if by_vc else "bounded") if rc == 1 and nv else "-", what or "-"))
     head = ("Last full run (`seeded/results.txt`): %d changes, %d reported as VIOLATION by the target "
             "property's quick check%s; %d of them by a failed VC obligation (named below), %d only by the "
             "bounded layer (changes inside functions not under contract: `allocate_snapshots`, the H-Revolve "
